@@ -23,6 +23,7 @@
             final(self).same_problem(old(self)),
             final(self).sv@.len() == old(self).sv@.len(),
             forall|i: int| 0 <= i < old(self).sv@.len() ==> same_sample_and_box(#[trigger] final(self).sv@[i], old(self).sv@[i]),
+            old(self).samples_ok() ==> final(self).samples_ok(), //# smo-keeps-support-vectors-distinct-training-rows
 //@enter
         proof { T::ops_total(); axiom_real::<T>(); }
 //@end
